@@ -41,6 +41,8 @@ def main():
     ap.add_argument("--keep-as", default=None)
     ap.add_argument("--no-suite", action="store_true")
     ap.add_argument("--examples", type=int, default=None)
+    ap.add_argument("--no-replays", action="store_true", help="switch the replay tier off: is the change also found by the generated search?")
+    ap.add_argument("--no-keep", action="store_true")
     args = ap.parse_args()
     seed = os.path.join(args.worktree, "SEED")
     meta = json.load(open(os.path.join(seed, "meta.json")))
@@ -92,6 +94,8 @@ def main():
         report["checks"] = {}
         for cid in checks:
             env = dict(os.environ, VERIF_SHRINK_S="5", VERIF_OUT_DIR=os.path.join(scratch, "out"))
+            if args.no_replays:
+                env["VERIF_NO_REPLAYS"] = "1"
             cmd = [PY, os.path.join(ROOT, "run_check.py"), cid, "--tier", args.tier, "--repo", patched]
             if args.examples:
                 cmd += ["--examples", str(args.examples)]
@@ -101,7 +105,7 @@ def main():
                                      "tier": args.tier, "tail": out.strip().splitlines()[-1:] if rc == 2 else []}
         confirmed = report["demo_ok"] and report.get("suite_ok", True)
         report["confirmed"] = confirmed
-        if confirmed:
+        if confirmed and not args.no_keep:
             name = args.keep_as or pid
             dst = os.path.join(ROOT, "seeded", name)
             os.makedirs(dst, exist_ok=True)
